@@ -183,4 +183,50 @@ def k3(ctx, kr):
     kr.stubs = ['xform_resolve_late_bound_{data_decl,expr_kind,type_initializer}::apply = identity (record input)']
     kr.exhaustive = True
 
-KERNELS = [k1, k2, k3]
+# ---------------------------------------------------------------------------------------------- K4 rule verdicts under exchange of independent declarations
+from . import C02 as K02
+
+@replay_factory('decl_order')
+def _replay_decl_order(src, rname):
+    def rp(ctx):
+        decls = [d for d in re.split(r'(?<=END_FUNCTION_BLOCK\n)|(?<=END_TYPE\n)|(?<=END_PROGRAM\n)|(?<=END_CONFIGURATION\n)', src) if d.strip()]
+        seen = {}
+        for perm in itertools.permutations(decls):
+            r = ctx.replay({'cmd': 'analyze', 'sources': [''.join(perm)]})
+            if 'panic' in r: return True, r
+            seen[''.join(perm)] = tuple(sorted(set(d['code'] for d in r.get('diagnostics', []))))
+        # and one declaration per file, in every file order
+        for perm in itertools.permutations(decls):
+            r = ctx.replay({'cmd': 'analyze', 'sources': list(perm)})
+            seen['|'.join(perm)] = tuple(sorted(set(d['code'] for d in r.get('diagnostics', []))))
+        vals = set(seen.values())
+        return len(vals) > 1, {'distinct_results': sorted(map(list, vals)), 'example_source': src}
+    return rp
+
+@kernel('K4 rules.declaration_order_independence')
+def k4(ctx, kr):
+    K02._CTX = ctx
+    rules = [r for r in K02.RULES if K02.RULES[r].get('swap')]
+    kr.bounds = 'rules %s on their C02 templates (identifiers symbolic over the template alphabet), with the two mutually independent POUs of the template in either order: the verdict must not depend on the order' % rules
+    parts = par_map(K02._rule_job, [(r, sw) for r in rules for sw in (False, True)])
+    by = {}
+    for (r, sw), part in zip([(r, sw) for r in rules for sw in (False, True)], parts):
+        part.findings = []; part.validate = []
+        merge_part(kr, part); by[(r, sw)] = part.verdicts
+    for r in rules:
+        a, b = by[(r, False)], by[(r, True)]
+        for names in sorted(set(a) | set(b)):
+            if names in a and names in b and a[names] != b[names]:
+                src = K02._subst_text(K02.RULES[r]['text'], list(names))
+                kr.findings.append(Finding('C06/K4/%s/order-dependent' % r, 'rule %s with names %s reports %s for one order of the independent declarations and %s for the other' % (r, list(names), list(a[names]) or 'nothing', list(b[names]) or 'nothing'),
+                                           {'names': list(names), 'source': src}, replay=_replay_decl_order(src, r)))
+                break
+        if len(kr.validate) < 2 and a:
+            names = sorted(a)[0]; kr.validate.append(('decl_order', (K02._subst_text(K02.RULES[r]['text'], list(names)), r)))
+        if len(kr.samples) < 3 and a: kr.samples.append({'rule': r, 'name_assignments_compared': len(set(a) & set(b))})
+    P = ctx.program()
+    kr.functions = fn_paths(P, getattr(kr, '_enc', set()))
+    kr.exhaustive = True
+    kr.outside = ['rules and templates without two independent POUs; more than one exchange']
+
+KERNELS = [k1, k2, k3, k4]
